@@ -130,6 +130,28 @@ pub fn truncation_keeps_newer() {
     }
 }
 
+/// truncate_before(T) with one closed file holding TWO header-only entries with symbolic, possibly non-monotone
+/// stamps (stamps of several shards / replicas are logged in arrival order) and an intact second file: the closed file
+/// may be deleted only if BOTH entries are stamped <= T
+pub fn truncation_two_entries() {
+    let (t1, t2, t3, th) = (vs::u64(), vs::u64(), vs::u64(), vs::u64());
+    let mut f1 = HDR.to_vec();
+    f1.extend_from_slice(&enc_n(t1, 7, 0));
+    f1.extend_from_slice(&enc_n(t2, 9, 0));
+    let mut f2 = HDR.to_vec();
+    f2[8] = 2;
+    f2.extend_from_slice(&enc_n(t3, 2, 0));
+    unsafe { FILES = [f1, f2]; DELETED = [false, false]; }
+    if let Ok(mut rot) = WalRotator::new(TwoFiles, 1 << 20) {
+        let r = rot.truncate_before(th);
+        vcheck!(r.is_ok(), "wal:truncate_before fails on intact files");
+        let (d1, d2) = unsafe { (DELETED[0], DELETED[1]) };
+        vcheck!(!(d1 && (t1 > th || t2 > th)), "wal:truncation removed an entry stamped later than the threshold (file with non-monotone stamps)");
+        vcheck!(!(d2 && t3 > th), "wal:truncation removed an entry stamped later than the threshold");
+        std::mem::forget((r, rot));
+    }
+}
+
 pub fn twin() {
     let mut img = HDR.to_vec();
     img.extend_from_slice(&enc(vs::u64(), 7));
@@ -143,16 +165,17 @@ pub fn twin() {
 /// `n` listed segments with symbolic distinct ids and symbolic minimum stamps (equal minima included), optionally a
 /// checkpoint covering segments up to a symbolic id. Every listed segment that the checkpoint does not cover must be
 /// loaded; nothing that is not listed may be.
-pub fn segment_plan(n: usize) {
+pub fn segment_plan(n: usize, ck: i64) {
     // ids are concrete and distinct (1,2,3 in list order or reversed); minimum stamps are drawn from {5,7} (so that
     // equal and unequal minima, in either order, are all covered); the checkpoint's last id is any of 0..=3
     let rev = vs::bool();
     let ids = if rev { [3u64, 2, 1] } else { [1u64, 2, 3] };
     let ids = if n == 2 && rev { [2u64, 1, 3] } else { ids };
     let mins = [if vs::bool() { 5u64 } else { 7 }, if vs::bool() { 5u64 } else { 7 }, if vs::bool() { 5u64 } else { 7 }];
-    let has_ck = vs::bool();
-    let last = vs::u64();
-    vs::assume(last <= 3);
+    // checkpoint presence and its last segment id are concrete per harness instance (the number of segments that
+    // pass the filter is then a constant, which keeps std's sort on a slice of known length)
+    let has_ck = ck >= 0;
+    let last = if ck >= 0 { ck as u64 } else { 0 };
     let plan = crate::env::recover_plan(&ids[..n], &mins[..n], if has_ck { Some(last) } else { None });
     let mut all = true;
     let mut i = 0;
